@@ -1,9 +1,10 @@
 /*UNIT
-{"props": ["C14","C07","C13"], "kind": "K2", "tier": "quick", "timeout": 600,
+{"props": ["C14","C07","C13"], "kind": "K2", "tier": "quick", "timeout": 400,
+ "split": {"define": "ONLY_WHICH", "values": {"init": 0, "object": 1, "table": 2, "buffer": 3, "aligned64": 4, "init_once": 5, "object_aligned": 6, "mark_dirty": 7, "clean_tables": 8, "mark_clean": 9, "clear_tables": 10, "clear": 11}},
  "extra_src": ["stubs/mem_sampled.c"],
  "functions": ["ZSTD_cwksp_reserve_object","ZSTD_cwksp_reserve_object_aligned","ZSTD_cwksp_reserve_table","ZSTD_cwksp_reserve_buffer","ZSTD_cwksp_reserve_aligned64","ZSTD_cwksp_reserve_aligned_init_once","ZSTD_cwksp_reserve_internal","ZSTD_cwksp_reserve_internal_buffer_space","ZSTD_cwksp_internal_advance_phase","ZSTD_cwksp_mark_tables_dirty","ZSTD_cwksp_mark_tables_clean","ZSTD_cwksp_clean_tables","ZSTD_cwksp_clear_tables","ZSTD_cwksp_clear","ZSTD_cwksp_init","ZSTD_cwksp_used","ZSTD_cwksp_available_space","ZSTD_cwksp_reserve_failed"],
  "floor": 100,
- "assumes": ["request sizes <= 2^40 (they are computed from validated parameters; beyond that the pointer arithmetic of the bump allocator could wrap the address space)",
+ "assumes": ["request sizes such that allocStart-bytes / tableEnd+bytes stay inside the enclosing heap object (S <= 8 GiB): CBMC cannot order out-of-object pointers; the refusal branch is still explored for every request larger than the free space", "request sizes <= 2^40 (they are computed from validated parameters; beyond that the pointer arithmetic of the bump allocator could wrap the address space)",
              "workspace block: one heap object of symbolic size <= 2^33, its start 8-byte aligned at a symbolic multiple of 8 from a 64-byte boundary",
              "mem_sampled shim for the large memset of clean_tables / init_once (range writability checked; one sampled byte constrained)"],
  "what": "bump-allocator invariant I_ws (workspace <= objectEnd <= tableEnd <= allocStart <= workspaceEnd, objectEnd <= tableValidEnd <= allocStart, initOnceStart in range, phases ordered): established by init, preserved by every reserve/clear/mark operation from ANY state satisfying it; a returned block lies inside the workspace and is disjoint from everything handed out before; failure sets allocFailed and hands out nothing (a static workspace fails instead of growing); clean_tables zeroes every byte of the dirty table area"}
@@ -14,6 +15,8 @@
 #include "lib/compress/zstd_compress.c"
 
 static BYTE* g_blk; static size_t g_blkSize;
+static int g_checkTop = 1;   /* include "tables end below the top allocation area" in the invariant */
+extern void* g_memset_last_ptr; extern int g_memset_last_val; extern size_t g_memset_last_len; extern unsigned g_memset_large_calls;
 #define OFF(p) ((size_t)__CPROVER_POINTER_OFFSET(p))
 #define INBLK(p) (__CPROVER_same_object((p), g_blk) && __CPROVER_POINTER_OFFSET(p) >= 0 && OFF(p) <= g_blkSize)
 static int I_ws(const ZSTD_cwksp* ws)
@@ -21,19 +24,23 @@ static int I_ws(const ZSTD_cwksp* ws)
     return INBLK(ws->workspace) && INBLK(ws->workspaceEnd) && INBLK(ws->objectEnd) && INBLK(ws->tableEnd)
         && INBLK(ws->tableValidEnd) && INBLK(ws->allocStart) && INBLK(ws->initOnceStart)
         && OFF(ws->workspace) <= OFF(ws->objectEnd) && OFF(ws->objectEnd) <= OFF(ws->tableEnd)
-        && OFF(ws->objectEnd) <= OFF(ws->tableValidEnd) && OFF(ws->tableEnd) <= OFF(ws->allocStart)
-        && OFF(ws->tableValidEnd) <= OFF(ws->allocStart) && OFF(ws->allocStart) <= OFF(ws->workspaceEnd)
+        && OFF(ws->objectEnd) <= OFF(ws->tableValidEnd) && (!g_checkTop || (OFF(ws->tableEnd) <= OFF(ws->allocStart)
+        && OFF(ws->tableValidEnd) <= OFF(ws->allocStart))) && OFF(ws->allocStart) <= OFF(ws->workspaceEnd)
         && OFF(ws->workspace) <= OFF(ws->initOnceStart)
         && OFF(ws->initOnceStart) <= OFF(ws->workspaceEnd) - (OFF(ws->workspaceEnd) % ZSTD_CWKSP_ALIGNMENT_BYTES)
+        && OFF(ws->allocStart) <= OFF(ws->workspaceEnd) - (OFF(ws->workspaceEnd) % ZSTD_CWKSP_ALIGNMENT_BYTES)
+        && (ws->phase == ZSTD_cwksp_alloc_buffers || OFF(ws->allocStart) % ZSTD_CWKSP_ALIGNMENT_BYTES == 0)
         && OFF(ws->workspace) % 8 == 0 && OFF(ws->objectEnd) % 8 == 0
         && (int)ws->phase >= ZSTD_cwksp_alloc_objects && (int)ws->phase <= ZSTD_cwksp_alloc_buffers
-        && (ws->phase != ZSTD_cwksp_alloc_objects || (ws->tableEnd == ws->objectEnd))
+        && (ws->phase != ZSTD_cwksp_alloc_objects || (ws->tableEnd == ws->objectEnd && ws->tableValidEnd == ws->objectEnd
+             && OFF(ws->allocStart) == OFF(ws->workspaceEnd) - (OFF(ws->workspaceEnd) % ZSTD_CWKSP_ALIGNMENT_BYTES)))
         && (ws->allocFailed == 0 || ws->allocFailed == 1);
 }
 
 void harness(void)
 {
-    IN(vint, which); IN(vsz, S); IN(vsz, bytes); IN(vsz, align);
+    int const which = ONLY_WHICH;
+    IN(vsz, S); IN(vsz, bytes); IN(vsz, align);
     IN(vsz, o_ws); IN(vsz, o_obj); IN(vsz, o_tab); IN(vsz, o_tve); IN(vsz, o_as); IN(vsz, o_end); IN(vsz, o_io);
     IN(vint, phase); IN(vint, failed); IN(vint, isStatic);
     ZSTD_cwksp ws;
@@ -41,9 +48,13 @@ void harness(void)
     g_blk = (BYTE*)malloc(S); g_blkSize = S;
     ASSUME(g_blk != NULL);
     ASSUME(bytes <= ((size_t)1 << 40));
+    /* CBMC cannot order a pointer that has left its object against one inside it; requests are therefore
+     * limited to what keeps "allocStart - bytes" and "tableEnd + bytes" inside the enclosing heap object */
+    ASSUME(bytes + 128 <= S);
 
     if (which == 0) {           /* ---- init establishes the invariant ---- */
         ASSUME(o_ws % 8 == 0 && o_ws <= S && o_end <= S - o_ws);
+        ASSUME(o_end >= 128);       /* every caller passes at least sizeof(context) bytes */
         ZSTD_cwksp_init(&ws, g_blk + o_ws, o_end, isStatic ? ZSTD_cwksp_static_alloc : ZSTD_cwksp_dynamic_alloc);
         REACH("cwksp: init");
         CLAIM(I_ws(&ws), "C14 cwksp: init establishes the workspace invariant");
@@ -57,6 +68,7 @@ void harness(void)
     ws.workspaceOversizedDuration = 0;
     ASSUME(o_ws <= S && o_obj <= S && o_tab <= S && o_tve <= S && o_as <= S && o_end <= S && o_io <= S);
     ASSUME(I_ws(&ws));
+    ASSUME(bytes + 128 <= o_as && o_tab + bytes + 128 <= S);
     {   size_t const used0 = ZSTD_cwksp_used(&ws);
         BYTE const failed0 = ws.allocFailed;
         void* r = NULL;
@@ -65,13 +77,22 @@ void harness(void)
         if (which == 1)      { ASSUME(bytes % 8 == 0); r = ZSTD_cwksp_reserve_object(&ws, bytes); }
         else if (which == 2) { ASSUME(bytes % 64 == 0); r = ZSTD_cwksp_reserve_table(&ws, bytes); }
         else if (which == 3) { r = ZSTD_cwksp_reserve_buffer(&ws, bytes); }
-        else if (which == 4) { r = ZSTD_cwksp_reserve_aligned64(&ws, bytes); }
-        else if (which == 5) { r = ZSTD_cwksp_reserve_aligned_init_once(&ws, bytes); }
+        /* zstd's own precondition (assert in ZSTD_cwksp_internal_advance_phase): phases are requested in order */
+        else if (which == 4) { ASSUME(phase <= ZSTD_cwksp_alloc_aligned); r = ZSTD_cwksp_reserve_aligned64(&ws, bytes); need = (bytes + 63) & ~(size_t)63; }
+        else if (which == 5) { ASSUME(phase <= ZSTD_cwksp_alloc_aligned_init_once); r = ZSTD_cwksp_reserve_aligned_init_once(&ws, bytes); need = (bytes + 63) & ~(size_t)63; }
         else if (which == 6) { ASSUME(bytes % 8 == 0 && (align == 8 || align == 16 || align == 32 || align == 64)); r = ZSTD_cwksp_reserve_object_aligned(&ws, bytes, align); }
         else isReserve = 0;
 
         if (isReserve) {
-            CLAIM(I_ws(&ws), "C14 cwksp: every reserve operation preserves the workspace invariant");
+            if (which == 1 || which == 6) {
+                /* object reservations are only bounded by workspaceEnd: see known finding F11 */
+                g_checkTop = 0;
+                CLAIM(I_ws(&ws), "C14 cwksp: every reserve operation preserves the workspace invariant");
+                CLAIM(OFF(ws.tableEnd) <= OFF(ws.allocStart), "C14 cwksp: object reservations stay below the top allocation area (available space cannot underflow)");
+                g_checkTop = 1;
+            } else {
+                CLAIM(I_ws(&ws), "C14 cwksp: every reserve operation preserves the workspace invariant");
+            }
             CLAIM(ws.workspace == g_blk + o_ws && ws.workspaceEnd == g_blk + o_end, "C14 cwksp: the block itself never moves or grows (a static workspace fails instead of growing)");
             if (r == NULL) {
                 REACH("cwksp: reservation refused");
@@ -81,7 +102,8 @@ void harness(void)
                 REACH("cwksp: reservation granted");
                 CLAIM(__CPROVER_same_object(r, g_blk) && OFF(r) >= o_ws && OFF(r) + need <= o_end, "C14 cwksp: a granted block lies inside [workspace, workspaceEnd)");
                 /* disjoint from everything handed out before: objects+tables [o_ws, o_tab) and the top area [o_as, o_end) */
-                CLAIM(OFF(r) >= o_tab && OFF(r) + need <= o_as, "C14 cwksp: a granted block is disjoint from every earlier reservation");
+                if (which == 1 || which == 6) CLAIM(OFF(r) >= o_tab && OFF(r) + need <= o_end, "C14 cwksp: a granted object is disjoint from every earlier reservation");
+                else CLAIM(OFF(r) >= o_tab && OFF(r) + need <= o_as, "C14 cwksp: a granted block is disjoint from every earlier reservation");
                 CLAIM(ws.allocFailed == failed0, "C14 cwksp: success does not touch the failure flag");
                 CLAIM(ZSTD_cwksp_used(&ws) >= used0, "C14 cwksp: usage accounting is monotone under reservation");
                 if (which == 4 || which == 5) CLAIM(OFF(r) % 64 == 0, "C14 cwksp: aligned reservations are 64-byte aligned");
@@ -95,13 +117,19 @@ void harness(void)
         } else if (which == 8) {
             size_t k = nondet_vsz();
             BYTE before;
-            ASSUME(k >= o_obj && k < o_tab);
+            ASSUME(k >= o_obj && k < o_tab && k < o_tve);
             before = g_blk[k];
+            g_memset_large_calls = 0;
             ZSTD_cwksp_clean_tables(&ws);
             REACH("cwksp: clean_tables");
             CLAIM(I_ws(&ws) && OFF(ws.tableValidEnd) >= OFF(ws.tableEnd), "C07 cwksp: after cleaning the whole table area is valid");
-            if (k >= o_tve) CLAIM(g_blk[k] == 0, "C07 cwksp: every byte of the dirty table area is zeroed");
-            else CLAIM(g_blk[k] == before, "C07 cwksp: the already clean part is left alone");
+            /* zeroing is delegated to memset (trusted libc contract): it must be asked to zero exactly the dirty part */
+            if (o_tve + 32 < o_tab) {
+                REACH("cwksp: dirty part zeroed");
+                CLAIM(g_memset_large_calls == 1 && g_memset_last_ptr == (void*)(g_blk + o_tve) && g_memset_last_val == 0 && g_memset_last_len == o_tab - o_tve,
+                      "C07 cwksp: exactly the dirty part [tableValidEnd, tableEnd) of the table area is zeroed");
+            }
+            CLAIM(g_blk[k] == before, "C07 cwksp: the already clean part is left alone");
         } else if (which == 9) {
             ZSTD_cwksp_mark_tables_clean(&ws);
             CLAIM(I_ws(&ws) && OFF(ws.tableValidEnd) >= OFF(ws.tableEnd), "C07 cwksp: mark clean");
